@@ -8,7 +8,9 @@ UNIT_MODULES = {
     "GenBatch": "gen_batch",
     "GenFmt": "gen_fmt",
     "GenReap": "gen_reap",
+    "GenRunner": "gen_runner",
     "GenStages": "gen_stages",
+    "GenTemplates": "gen_templates",
     "GenWelford": "gen_welford",
 }
 
